@@ -551,6 +551,11 @@ func opCorpus() []opsim.Scenario {
 		// Synchronization succeeds, the second fails once; events of the first binding meanwhile
 		{Cfg: []opsim.Hook{{Id: 1, Kube: []opsim.KB{{Name: 1, ExecSync: true}, {Name: 2, ExecSync: true, Queue: 2}}}},
 			Acts: []opsim.Action{{Kind: "Boot"}, {Kind: "Finish", Q: 0, Ok: true}, {Kind: "KubeEv", Mon: 1, Obj: 1}, {Kind: "Finish", Q: 0, Ok: false}, {Kind: "KubeEv", Mon: 1, Obj: 2}, {Kind: "Finish", Q: 0, Ok: true}, {Kind: "Finish", Q: 0, Ok: true}, {Kind: "KubeEv", Mon: 2, Obj: 3}, {Kind: "Finish", Q: 2, Ok: true}}},
+		// a grouped Synchronization that fails twice while an Event of an already unlocked group mate
+		// waits behind it (compaction drops the Synchronization context on the first retry): when it
+		// finally succeeds its binding must be unlocked (repaired b4b7f41)
+		{Cfg: []opsim.Hook{{Id: 1, Kube: []opsim.KB{{Name: 1, Group: 1, ExecSync: false}, {Name: 2, Group: 1, ExecSync: true}}}},
+			Acts: []opsim.Action{{Kind: "Boot"}, {Kind: "KubeEv", Mon: 1, Obj: 1}, {Kind: "Finish", Q: 0, Ok: false}, {Kind: "Finish", Q: 0, Ok: false}, {Kind: "Finish", Q: 0, Ok: true}, {Kind: "KubeEv", Mon: 2, Obj: 2}, {Kind: "Finish", Q: 0, Ok: true}}},
 		// three bindings, the middle one exempt from Synchronization, the last one allowing failure
 		{Cfg: []opsim.Hook{{Id: 1, Kube: []opsim.KB{{Name: 1, ExecSync: true}, {Name: 2, ExecSync: false}, {Name: 3, ExecSync: true, Allow: true}}}},
 			Acts: []opsim.Action{{Kind: "Boot"}, {Kind: "Finish", Q: 0, Ok: true}, {Kind: "KubeEv", Mon: 2, Obj: 1}, {Kind: "Finish", Q: 0, Ok: false}, {Kind: "KubeEv", Mon: 3, Obj: 2}, {Kind: "Finish", Q: 0, Ok: true}, {Kind: "Finish", Q: 0, Ok: true}}},
